@@ -1,4 +1,5 @@
-from orchestrate.common import run_check
+import os, re
+from orchestrate.common import run_check, REPO, ROOT
 
 def _nontrivial(ln):
     # a case is non-trivial unless the DB-side list is empty or a native type
@@ -22,8 +23,44 @@ def _extra(lines, verdicts):
     return {"derived_structs_exercised": len(structs), "impl_accepted": accepted,
             "impl_rejected": rejected, "impl_round_trips_completed": rt}
 
-N_STRUCTS = 71          # registered structs (descriptor self-check, kind XD)
+STRUCT_IDS = sorted(['V01', 'V02', 'V03', 'V04', 'V05', 'V06', 'V07', 'V08', 'V09', 'V10', 'V11', 'V12', 'V13', 'V14', 'V15', 'V16', 'V17', 'V18', 'V19', 'V20', 'V21', 'V22', 'V23', 'V24', 'V25', 'V26', 'V27', 'V28', 'V29', 'V30', 'V31', 'V32', 'V33', 'R01', 'R02', 'R03', 'R04', 'R05', 'R06', 'R07', 'R08', 'R09', 'R10', 'R11', 'R12', 'R13', 'R14', 'R15', 'F01', 'F02', 'F03', 'F04', 'F05', 'F06', 'F07', 'F08', 'F09', 'F10', 'F11', 'F12', 'F13', 'F14', 'F15', 'F16', 'F17', 'G01', 'L01', 'GR1', 'LR1', 'K01', 'KR1'])
+NESTED_IDS = sorted(['N01', 'N02', 'N03', 'N04', 'NR1'])
+N_STRUCTS = len(STRUCT_IDS)   # 71 registered structs (descriptor self-check, kind XD)
 N_NESTED = 5            # structs with derived-struct field types (kind NV)
+
+# census: the #[scylla(..)] attribute names and flavors the four derive macros understand, read from
+# the macro sources of the tree under test.  A new attribute / flavor leaves the family incomplete.
+MACRO_FILES = ["scylla-macros/src/serialize/value.rs", "scylla-macros/src/serialize/row.rs",
+               "scylla-macros/src/deserialize/value.rs", "scylla-macros/src/deserialize/row.rs"]
+PINNED_ATTRS = sorted(["crate", "flavor", "skip_name_checks", "forbid_excess_udt_fields", "rename", "skip",
+                       "allow_missing", "default_when_null", "flatten"])
+PINNED_FLAVORS = sorted(["match_by_name", "enforce_order"])
+
+def _census():
+    """attribute names = fields of the darling structs (after #[darling(rename = ..)]), flavors = the
+    string literals of Flavor::from_string"""
+    attrs = set()
+    for rel in MACRO_FILES:
+        src = open(os.path.join(REPO, rel)).read()
+        for m in re.finditer(r"#\[darling\(attributes\(scylla\)\)\]\s*struct\s+\w+\s*\{(.*?)\n\}", src, re.S):
+            body = re.sub(r"//[^\n]*", "", m.group(1))
+            pending = None
+            for ln in body.split("\n"):
+                ln = ln.strip()
+                r = re.match(r'#\[darling\(rename\s*=\s*"(\w+)"\)\]', ln)
+                if r:
+                    pending = r.group(1)
+                    continue
+                f = re.match(r"(?:pub\s+)?(\w+)\s*:", ln)
+                if f and not ln.startswith("#"):
+                    name = pending or f.group(1)
+                    pending = None
+                    if name not in ("ident", "ty"):          # darling's own magic fields
+                        attrs.add(name)
+    lib = open(os.path.join(REPO, "scylla-macros/src/lib.rs")).read()
+    m = re.search(r"impl FromMeta for Flavor \{(.*?)\n\}", lib, re.S)
+    flavors = set(re.findall(r'"(\w+)"\s*=>', m.group(1))) if m else set()
+    return sorted(attrs), sorted(flavors)
 
 def _post(lines, verdicts):
     """Coverage floors: the run must really have exercised what the evidence claims.  Skipped for
@@ -31,7 +68,15 @@ def _post(lines, verdicts):
     if len(lines) < 1000:
         return []
     problems = []
+    try:
+        attrs, flavors = _census()
+    except OSError as ex:
+        attrs, flavors = ["<unreadable: %s>" % ex], []
+    if attrs != PINNED_ATTRS or flavors != PINNED_FLAVORS:
+        problems.append(("diff", "census: macro attributes",
+                         f"diff census scylla-macros attributes {attrs} flavors {flavors} differ from the pinned {PINNED_ATTRS} {PINNED_FLAVORS}"))
     kinds, per_struct, rts, accepted, xd = {}, {}, 0, 0, 0
+    xd_ids, pt_accepted = [], 0
     for ln in lines:
         f = ln.split("|")
         head = f[0].split()
@@ -41,7 +86,10 @@ def _post(lines, verdicts):
         kinds[head[0]] = kinds.get(head[0], 0) + 1
         if head[0] == "XD":
             xd += 1
+            xd_ids.append(head[1])
             continue
+        if head[0] == "PT" and out[:1] == ["ok"]:
+            pt_accepted += 1
         per_struct[head[1]] = per_struct.get(head[1], 0) + 1
         if out[:1] == ["ok"]:
             accepted += 1
@@ -51,9 +99,13 @@ def _post(lines, verdicts):
     for k, share in (("SV", 0.10), ("DV", 0.15), ("SR", 0.08), ("DR", 0.05)):
         if kinds.get(k, 0) < share * n:
             problems.append(("diff", f"coverage: kind {k}", f"diff coverage-floor kind {k}: {kinds.get(k, 0)} of {n} cases"))
-    if xd != N_STRUCTS:
-        problems.append(("diff", "coverage: XD", f"diff coverage-floor descriptor self-check ran for {xd} structs, expected {N_STRUCTS}"))
-    for k, floor in (("PR", 2000), ("NV", 2500)):
+    if sorted(xd_ids) != STRUCT_IDS:
+        problems.append(("diff", "coverage: XD", f"diff coverage-floor descriptor self-check ran for {sorted(set(xd_ids) ^ set(STRUCT_IDS))} differently from the pinned struct list"))
+    if sorted(per_struct) != sorted(STRUCT_IDS + NESTED_IDS):
+        problems.append(("diff", "coverage: structs", f"diff coverage-floor struct ids differ from the pinned list: {sorted(set(per_struct) ^ set(STRUCT_IDS + NESTED_IDS))}"))
+    if pt_accepted < 200:
+        problems.append(("diff", "coverage: PT", f"diff coverage-floor only {pt_accepted} accepted PT cases (per-column table specs)"))
+    for k, floor in (("PR", 1500), ("PT", 600), ("NV", 2500)):
         if kinds.get(k, 0) < floor:
             problems.append(("diff", f"coverage: kind {k}", f"diff coverage-floor kind {k}: {kinds.get(k, 0)} cases, floor {floor}"))
     if len(per_struct) != N_STRUCTS + N_NESTED or min(per_struct.values()) < 200:
@@ -74,10 +126,10 @@ SPEC = {
     "rule": ("fixed family of 71 registered derived structs (36 UDT-value structs, 18 row structs with "
              "SerializeRow(+DeserializeRow), 17 SerializeRow structs with #[scylla(flatten)]; among them structs with lifetime / type parameters and #[scylla(crate = ..)]), each registered with its descriptor text (re-derived from the attribute text of the runner's own source as a self-check, kind XD); "
              "per struct: every permutation of its <= 6 bound fields, every subset of fields missing in 4 orders, one extra field at "
-             "every position, two extras at every pair of positions, every field duplicated at every position, every field with "
+             "every position (quick: only for <= 1 missing field), two extras at every pair of positions, every field duplicated at every position, every field with "
              "every other DB type, Rust identifiers of renamed fields as DB names, a non-UDT type; per DB list one serialize case "
              "(with round trip through the derived deserializer on the implementation's own bytes) and deserialize cases with "
-             "random cells / every null pattern (all orders for <= 3 fields, declared and reversed order up to 4 fields quick / 6 thorough) / truncated value lists; then --n seeded random cases (extra names randomised: random identifiers, case variants of the struct's names, Rust identifiers of renamed / skipped fields). Kind PR: row cases re-run on ColumnSpecs decoded by the driver itself from a PREPARED response encoded by mocknode. Kind NV: 5 structs whose field types are derived structs (UDT in UDT, Option<Struct>, Vec<Struct>, UDT as a row column, ordered parent): every outer x inner field order x extras / absent allow_missing, judged by the round-trip law only (no model). "
+             "random cells / every null pattern (all orders for <= 3 fields, declared and reversed order up to 4 fields quick / 6 thorough) / truncated value lists; then --n seeded random cases (extra names randomised: random identifiers, case variants of the struct's names, Rust identifiers of renamed / skipped fields). Kind PR / PT: row cases re-run on ColumnSpecs decoded by the driver itself from a PREPARED response encoded by mocknode (PT: last column in a second table, per-column table specs). Kind NV: 5 structs whose field types are derived structs (UDT in UDT, Option<Struct>, Vec<Struct>, UDT as a row column, ordered parent): every outer x inner field order x extras / absent allow_missing, judged by the round-trip law only (no model). "
              "non-trivial = DB list non-empty and a UDT / column list; distinct = distinct case lines"),
     "nontrivial": _nontrivial,
     "extra_coverage": _extra,
@@ -85,13 +137,16 @@ SPEC = {
     "min_cases": {"quick": 120000, "thorough": 3000000},
     "trusted_base": [
         "doc_* functions of coq/Model/Derive.v are the attribute documentation of scylla-macros/src/lib.rs transcribed by hand",
-        "the descriptor text registered next to each struct of harness/src/bin/c16.rs (checked by the tie: a wrong descriptor disagrees)",
+        "the descriptor text registered next to each struct of harness/src/bin/c16.rs (re-derived from the struct's attribute text on every run, kind XD; a struct whose two texts differ gets no cases)",
+        "the 5 structs with nested derived-struct fields (kind NV) have no model: round-trip law only, bytes and rejections unchecked",
         "field value codec abstracted to cells: i32 / String / Option<i32> / Option<String> against int / text / bigint only",
     ],
     "assumptions": [
         "descriptors satisfy the macros' own compile-time validate (no duplicate field names among non-skipped fields)",
         "serialized values handed to the deserializers are well-framed ([bytes] cells); malformed framing is C08's subject",
         "text payloads are ASCII or contain byte 0xff (the model's UTF-8 validity test is exact only on those)",
+        "open finding F24 (class ordered-allow-missing-present-but-dropped): enforce_order + allow_missing accepts a UDT listing the field at another place and drops its value; such inputs are judged by the documented (strict) table and reported as KNOWN-FINDING",
+        "census: the attribute names / flavors of scylla-macros (read from the tree under test) equal the pinned list",
     ],
 }
 
